@@ -495,6 +495,21 @@ def evaluate(prog, root, opt):
                 rec.live = False
                 msg = f"{type(e).__name__}: {str(e)[:300]}"
                 k = classify_known(prog, msg)
+                if k is None:
+                    # does an INPUT of the map_blocks call already fail to compute on its own?  Then the
+                    # failure lies below the call (not a block_info matter)
+                    for st in prog:
+                        if st["op"] != "mb_rec":
+                            continue
+                        for a in st["args"]:
+                            try:
+                                run_dask(prog[: prog.index(st)], Recorder())[0][a].compute()
+                            except Exception as e2:
+                                m2 = f"{type(e2).__name__}: {str(e2)[:200]}"
+                                drift = any(t in m2 for t in ("Missing dependency ('sliding-window-", "adjust_chunks specified with"))
+                                has_swv = any(s2["op"] == "swv_reduce" for s2 in prog)
+                                info["producer_fails"] = m2
+                                return [("swv-layout-drift" if (drift and has_swv) else "producer-raises", f"input {a} alone: {m2}")], info
                 return [(k or "compute-raises", msg)], info
             rec.live = False
     mbs = [st for st in prog if st["op"] == "mb_rec"]
@@ -682,6 +697,10 @@ def run(ctx, replay=None):
             ctx.count((kinds_below[-3:], variant, above, opt), n=max(1, info.get("calls", 1)))
             if n_done <= 3:
                 ctx.sample({"program": describe(prog), "opt": opt, "calls": info.get("calls")})
+            if problems and problems[0][0] == "producer-raises":
+                ctx.notes["producer-raises(not C20)"] = ctx.notes.get("producer-raises(not C20)", 0) + 1
+                ctx.notes.setdefault("producer-raises.example", describe(prog) + " :: " + problems[0][1])
+                problems = []
             if problems:
                 sig, detail = problems[0]
                 case = {"prog": prog, "root": root, "opt": opt, "program": describe(prog), "detail": detail, "all": [p[0] for p in problems[:6]]}
